@@ -10,7 +10,7 @@ from props.common import *
 
 BOUNDS = ("constructed schemas of the catalogue (and leaves for the decode/clone/read routes), presence flags, lengths, CHOICE alternatives and element counts symbolic, scalar contents fixed (the read-only operations print them); second construction history chosen by a "
           "symbolic route: members assigned in reverse order / SET OF members inserted in a rotated order (rotation symbolic), every absent DEFAULT member assigned explicitly "
-          "to its default, decoded from the indefinite chunked BER form, decoded from DER, decoded from CER, clone(cloneValueFlag=True); a symbolic selection of read-only "
+          "to its default, decoded from the indefinite chunked BER form, decoded from DER, decoded from CER, clone(cloneValueFlag=True), every container filled by position in descending order (and that followed by a clone); a symbolic selection of read-only "
           "operations (quick: none / each single one / all; thorough: every subset of the 8) executed before encoding (DER encode, CER encode, prettyPrint, str, iteration, ==, keys/values/items, getComponentByPosition(i) for every i with "
           "instantiate=False, isValue)")
 OUTSIDE = "histories mixing more than one route; containers without a declared component type"
@@ -51,6 +51,33 @@ def build_alt(t, av, rot, explicit_defaults):
         ct = [c for c in t.comps if c[0] == name][0][1]
         # select another alternative first, then the right one
         o[name] = build_alt(ct, inner, rot, explicit_defaults)
+        return o
+    return build(t, av)
+
+
+def build_rev(t, av):
+    """Same abstract value, every container filled by position in descending order (SEQUENCE OF/SET OF: sparse, last position first)."""
+    k = t.kind
+    spec = mk_type(t)
+    if k in ("SEQ", "SET"):
+        o = spec.clone()
+        for idx in reversed(range(len(t.comps))):
+            name, ct, mode, dflt = t.comps[idx]
+            if name in av:
+                o.setComponentByPosition(idx, build_rev(ct, av[name]))
+        return o
+    if k in ("SEQOF", "SETOF"):
+        o = spec.clone()
+        for idx in reversed(range(len(av))):
+            o.setComponentByPosition(idx, build_rev(t.elem, av[idx]))
+        if not av:
+            o.clear()
+        return o
+    if k == "CHOICE":
+        o = spec.clone()
+        name, inner = av
+        ct = [c for c in t.comps if c[0] == name][0][1]
+        o.setComponentByName(name, build_rev(ct, inner))
         return o
     return build(t, av)
 
@@ -107,6 +134,10 @@ def history(sid, route, rot, mi, **slots):
         v2, _ = cer_decoder.decode(substrate(c1), asn1Spec=spec)
     elif route == 5:
         v2 = v1.clone(cloneValueFlag=True) if t.kind in ("SEQ", "SET", "SEQOF", "SETOF", "CHOICE") else v1.clone()
+    elif route == 7:
+        v2 = build_rev(t, av)
+    elif route == 8:
+        v2 = build_rev(t, av).clone(cloneValueFlag=True)
     else:
         v2 = build(t, av)
     _reads(v2, t, mask)
@@ -126,7 +157,7 @@ for e in all_entries():
     quick = e.id in QUICK_IDS and (e.has("constructed") or e.id in ("int", "octs", "bits", "utf8", "bool.E", "int.EI"))
     if not (e.has("constructed") or e.has("leaf")):
         continue
-    routes = list(range(7)) if e.has("constructed") else [2, 3, 4, 5, 6]
+    routes = list(range(9)) if e.has("constructed") else [2, 3, 4, 5, 6]
     fix = dict((k, v) for k, v in FIX.items() if k in e.params and k not in e.shard)
     if "n" in e.params:
         fix["n"] = I(0, 1)
@@ -138,7 +169,7 @@ for e in all_entries():
         if r != 6:
             sh["mi"] = I(8, 9)  # one read (getComponentByPosition sweep) or all of them; the full selection runs on route 6
         shards.append(sh)
-    OBLIGATIONS.append(entry_obl("history", history, e, extra={"route": I(0, 6), "rot": I(0, 2), "mi": I(0, len(MASKS) - 1)}, extra_thorough={"mi": I(0, len(MASKS) + 255)},
+    OBLIGATIONS.append(entry_obl("history", history, e, extra={"route": I(0, 8), "rot": I(0, 2), "mi": I(0, len(MASKS) - 1)}, extra_thorough={"mi": I(0, len(MASKS) + 255)},
                                  narrow=True, budget=120, thorough_budget=400, extra_shards=shards, tiers=("quick", "thorough") if quick else ("thorough",)))
 
 
